@@ -316,6 +316,10 @@ func genC11(g *Gen) {
 		if i%3 == 0 {
 			names = []string{"a", "b", "ab", "c", "a.b"}
 		}
+		unsafeNames := i%20 == 19 // L/* literals the library reads as a regular expression (C10 unsafe-star-literal):
+		if unsafeNames {         // pruning is observable there, the stream must stay valid all the same
+			names = append(append([]string{}, small[:4]...), c10UnsafeNames...)
+		}
 		v := GenView(r, TreeOpts{MaxEntries: 5 + r.Intn(12), MaxDepth: 4, Names: names, Types: r.Chance(25), HardLinks: true, Owners: r.Chance(30)})
 		paths := viewPaths(v)
 		isDir := map[string]bool{}
@@ -336,8 +340,21 @@ func genC11(g *Gen) {
 			inc = genPatternList(r, paths, v, classes, 0)
 			exc = genPatternList(r, paths, v, classes, 0)
 		}
+		// exclude the source of a link group: the reset has to act
+		if links > 0 && r.Chance(35) {
+			var srcs []string
+			for _, st := range WalkEntries(v) {
+				if st.Linkname != "" && os.FileMode(st.Mode)&os.ModeSymlink == 0 {
+					srcs = append(srcs, st.Linkname)
+				}
+			}
+			exc = append(exc, Pick(r, srcs))
+		}
 		mt := L()
 		cls := "wire"
+		if unsafeNames {
+			cls += "+unsafe-names"
+		}
 		if i%5 == 4 {
 			mt = genMapTable(r, paths, isDir)
 			if len(mt.L) > 0 {
